@@ -231,6 +231,91 @@ Fixpoint run (clk : positive) (st : sys_state) (evs : list event) : list (outcom
   | e :: r => let '(st', o) := step clk st e in o :: run clk st' r
   end.
 
+(* the state after a list of calls *)
+Fixpoint run_state (clk : positive) (st : sys_state) (evs : list event) : sys_state :=
+  match evs with
+  | [] => st
+  | e :: r => run_state clk (fst (step clk st e)) r
+  end.
+
+(* ------------------------------------------------------------ re-entrancy within one thread *)
+(* While a blocking cpu_percent(interval > 0) / cpu_times_percent(interval > 0) sleeps, code
+   running in the SAME thread (signal handler, gc callback, __del__, trace hook) may call these
+   functions again.  In the code the blocking call's first sample t1 is a local variable; the
+   nested calls go through the thread's stored samples like any call; after the sleep the
+   blocking call reads again, stores that sample and answers calculate(t1, t2).  If the sleep is
+   left by an exception the blocking call stores nothing.
+   [be_nested]: calls made by the same thread during the sleep (only meaningful when [be_ev] is a
+   blocking cpu_percent / cpu_times_percent call); [be_raise]: the sleep raises afterwards. *)
+Record bevent := { be_ev : event; be_nested : list event; be_raise : bool }.
+
+Inductive samp := S1 (l : list Q) | SP (l : list (list Q)).
+Definition set_memo (st : sys_state) (m : option nat) : sys_state :=
+  {| memo := m; last1 := last1 st; lastp1 := lastp1 st; last2 := last2 st; lastp2 := lastp2 st |}.
+(* t1 = cpu_times() / cpu_times(percpu=True) *)
+Definition first_read (clk : positive) (nf : nat) (e : event) : outcome samp :=
+  if e_percpu e then omap SP (per_cpu_times clk nf (e_k1 e)) else omap S1 (cpu_times clk nf (e_k1 e)).
+(* after the sleep: last[tid] = read(); return calculate(t1, last[tid]) *)
+Definition second_half (clk : positive) (st : sys_state) (e : event) (t1 : samp) : sys_state * outcome sres :=
+  let nf := ensure_nf (memo st) (e_k2 e) in
+  let t := e_tid e in
+  match e_fn e, t1 with
+  | FPercent, S1 a =>
+    match cpu_times clk nf (e_k2 e) with
+    | Val b => ({| memo := Some nf; last1 := update t b (last1 st); lastp1 := lastp1 st; last2 := last2 st; lastp2 := lastp2 st |},
+                Val (RNum (calc_percent a b)))
+    | Exc x => (set_memo st (Some nf), Exc x) | OutOfModel => (set_memo st (Some nf), OutOfModel)
+    end
+  | FPercent, SP a =>
+    match per_cpu_times clk nf (e_k2 e) with
+    | Val b => ({| memo := Some nf; last1 := last1 st; lastp1 := update t b (lastp1 st); last2 := last2 st; lastp2 := lastp2 st |},
+                Val (RNums (zipw calc_percent a b)))
+    | Exc x => (set_memo st (Some nf), Exc x) | OutOfModel => (set_memo st (Some nf), OutOfModel)
+    end
+  | FTimesPercent, S1 a =>
+    match cpu_times clk nf (e_k2 e) with
+    | Val b => ({| memo := Some nf; last1 := last1 st; lastp1 := lastp1 st; last2 := update t b (last2 st); lastp2 := lastp2 st |},
+                Val (RRow (calc_times_percent a b)))
+    | Exc x => (set_memo st (Some nf), Exc x) | OutOfModel => (set_memo st (Some nf), OutOfModel)
+    end
+  | FTimesPercent, SP a =>
+    match per_cpu_times clk nf (e_k2 e) with
+    | Val b => ({| memo := Some nf; last1 := last1 st; lastp1 := lastp1 st; last2 := last2 st; lastp2 := update t b (lastp2 st) |},
+                Val (RRows (zipw calc_times_percent a b)))
+    | Exc x => (set_memo st (Some nf), Exc x) | OutOfModel => (set_memo st (Some nf), OutOfModel)
+    end
+  | FTimes, _ => (st, OutOfModel)
+  end.
+
+Definition is_blocking (e : event) : bool :=
+  match e_fn e, e_iv e with
+  | FPercent, IPos | FTimesPercent, IPos => true
+  | _, _ => false
+  end.
+
+(* results in the order the calls return: the nested ones, then the blocking one *)
+Definition bstep (clk : positive) (st : sys_state) (b : bevent) : sys_state * list (outcome sres) :=
+  let e := be_ev b in
+  if is_blocking e then
+    let nf := ensure_nf (memo st) (e_k1 e) in
+    let st1 := set_memo st (Some nf) in
+    match first_read clk nf e with
+    | Val t1 =>
+      let st2 := run_state clk st1 (be_nested b) in
+      let rs := run clk st1 (be_nested b) in
+      if be_raise b then (st2, rs ++ [Exc RuntimeError])            (* the sleep is left by an exception *)
+      else let '(st3, r) := second_half clk st2 e t1 in (st3, rs ++ [r])
+    | Exc x => (st1, [Exc x])                                       (* fails before the sleep *)
+    | OutOfModel => (st1, [OutOfModel])
+    end
+  else let '(st', r) := step clk st e in (st', [r]).
+
+Fixpoint brun (clk : positive) (st : sys_state) (l : list bevent) : list (outcome sres) :=
+  match l with
+  | [] => []
+  | b :: r => let '(st', rs) := bstep clk st b in rs ++ brun clk st' r
+  end.
+
 (* thread lifetime.  As of /repo d2712e2 the previous samples live in thread-local storage
    (class _LastCpuTimes(threading.local): cpu_times, per_cpu_times, cpu_times_2,
    per_cpu_times_2): the key [e_tid] of the four maps below is the calling THREAD itself -- its
